@@ -4,7 +4,7 @@ real protocol classes on StringTransport vs the Lean model, plus the property or
 from twisted.internet.testing import StringTransport
 from twisted.protocols import basic
 
-HEADLINE = "TwistedProps.C16.intN_seg_invariant"
+HEADLINE = "TwistedProps.C16.line_seg_invariant"
 RULE = ("per receiver (int8/16/32, netstring, lineonly, line): grammar-built streams (valid frames with lengths around "
         "MAX_LENGTH, delimiters at every offset, invalid netstrings, over-long lines/prefixes) cut at random points, "
         "at every single cut point, and around delimiter/prefix boundaries; handler scripts that close, pause and "
@@ -14,18 +14,31 @@ ASSUMES = [
     "lineLengthExceeded / lengthLimitExceeded are the default implementations (they call transport.loseConnection())",
     "message callbacks return None; an application is a script of (close, pause, raw-byte-count) per message index; the raw "
     "handler keeps the counted bytes and then calls setLineMode(rest)",
-    "delimiter is non-empty; NetstringReceiver.MAX_LENGTH >= 1 (MAX_LENGTH = 0 raises ValueError from math.log10 in the code)",
+    "delimiter is non-empty; NetstringReceiver.MAX_LENGTH >= 1 (MAX_LENGTH = 0 raises ValueError from math.log10 in the code); "
+    "the Lean theorems themselves hold for the models at every delimiter / MAX_LENGTH",
     "the transport stops delivering after the first loseConnection() (schedules are played up to the first close request)",
+    "pausable receivers (IntN, LineReceiver): the compared schedules end quiescent (closed, or not paused) — a receiver left "
+    "paused has by design not delivered yet",
+    "line receivers are observed with the lineLengthExceeded argument erased (it is documented to depend on buffering); "
+    "LineReceiver additionally with adjacent rawDataReceived chunks joined (raw chunking is the segmentation)",
+    "line_send_receive is stated for applications that stay in line mode (script never asks for raw bytes)",
     "applications do not assign the deprecated IntNStringReceiver.recvd attribute",
 ]
 TRUSTED = ["twisted.internet.testing.StringTransport as the transport fake",
            "CPython bytes.split / re / struct semantics as transcribed in Framing/*.lean (tied differentially on every run)"]
 MANIFEST = {
-    "text": "Lean theorems (TwistedProps/C16.lean): for every stream, every schedule of deliveries (and resumeProducing calls) "
-            "the events up to the first close request equal the reference framing of the concatenated stream — hence are "
-            "independent of the segmentation; strings/lines within MAX_LENGTH are never rejected, longer ones never "
-            "delivered; what sendString/sendLine writes is received as exactly that message. Models of all six receivers "
-            "are tied to protocols/basic.py by differential runs on structured streams with all single cuts.",
+    "text": "Lean theorems (TwistedProps/C16.lean), each for ALL FOUR receiver families — Int8/16/32StringReceiver (intN_*), "
+            "LineOnlyReceiver (lineOnly_*), NetstringReceiver (netstring_*) and LineReceiver with pause/resume and line/raw mode "
+            "switches requested by the callbacks (line_*): for every stream and every schedule of deliveries (and resumeProducing "
+            "calls) the events up to the first close request equal the reference framing of the concatenated stream "
+            "(*_matches_reference) — hence are independent of the segmentation (*_seg_invariant, incl. versus the stream delivered "
+            "at once); strings/lines within MAX_LENGTH are never rejected and what sendString/sendLine writes is received as exactly "
+            "that message (*_send_receive; netstring: decimal length round trip and _maxLengthSize bound proved), longer ones are "
+            "never delivered anywhere in a run (*_over_limit_never_delivered); split_join: the model of bytes.split satisfies the "
+            "join law. Proof shape: per-receiver splitting lemma (one delivery, then the reference on the rest = the reference on "
+            "everything: resumption of a partial length/payload for netstrings, the line/raw/pause loop for LineReceiver) + the "
+            "generic induction over schedules run_obs. Models of all six receiver classes are tied to protocols/basic.py by "
+            "differential runs on structured streams with all single cuts.",
     "note": "trusts Lean kernel, the hand-written models of basic.py receivers (differentially tied), StringTransport, "
             "CPython bytes.split/re/struct",
     "technique": "Lean 4 proof (splitting lemma + generic induction over schedules) + differential tie + implementation oracle",
